@@ -26,6 +26,7 @@ CONSTANTS Part,            \* "item" | "single" | "list"
           AnsOpts, CmpReturns,           \* palettes of the item part
           LeafAns, LeafCmp, TableGrades, \* palettes of the leaves inside list stages
           ListAns, MaxItems, Layouts,
+          TableOnly,       \* layouts whose leaves are all author-defined (keeps the four-input layout small)
           OkRecomputed
 
 VARIABLES st,      \* stage (program counter)
@@ -197,7 +198,7 @@ LeafStart ==
      \/ /\ Part = "list"
         /\ \E kind \in {"table", "formula"} :
              /\ kind = "table" => TableGrades # {}
-             /\ kind = "formula" => LeafAns # {}
+             /\ kind = "formula" => LeafAns # {} /\ cf.layout \notin TableOnly
              /\ lf' = [NoLeaf EXCEPT !.kind = kind]
              /\ st' = IF kind = "table" THEN "table" ELSE "alt"
              /\ ch' = Append(ch, <<"leaf", kind>>)
